@@ -84,6 +84,66 @@ def run_one(prop, repo, job, workdir, idx, timeout):
     return res
 
 
+def anchor_coverage(prop, repo, jobs, workdir):
+    """
+    Line coverage of the property's anchor files (properties.jsonl) reached
+    by one scaled-down shard of every workload family, measured with
+    coverage.py in separate worker runs (informational; thorough tier).
+    """
+    anchors = []
+    try:
+        with open(os.path.join(VERIF, 'properties.jsonl')) as f:
+            for line in f:
+                rec = json.loads(line)
+                if rec['id'] == prop:
+                    anchors = rec['anchors']['files']
+    except OSError:
+        return None
+    seen, picked = set(), []
+    for job in jobs:
+        fam = job['shard'].get('family')
+        if fam in seen:
+            continue
+        seen.add(fam)
+        j = json.loads(json.dumps(job))
+        for k in ('n', 'steps'):
+            if k in j['shard']:
+                j['shard'][k] = max(5, min(j['shard'][k], 150))
+        picked.append(j)
+    data = os.path.join(workdir, 'cov.data')
+    env = worker_env(repo)
+    env['PV_WORKDIR'] = workdir
+    env['COVERAGE_FILE'] = data
+    for i, job in enumerate(picked):
+        sf = os.path.join(workdir, f"cov{i}.in.json")
+        with open(sf, 'w') as f:
+            json.dump(job, f)
+        cmd = [PY, '-m', 'coverage', 'run', '-a', '--include',
+               os.path.join(repo, 'pytrs', '*'), '-m', 'pv.worker', '--prop',
+               prop, '--repo', repo, '--shard-file', sf, '--out',
+               os.path.join(workdir, f"cov{i}.out.json")]
+        try:
+            subprocess.run(cmd, cwd=VERIF, env=env, capture_output=True,
+                           timeout=900)
+        except subprocess.TimeoutExpired:
+            continue
+    rep = os.path.join(workdir, 'cov.json')
+    subprocess.run([PY, '-m', 'coverage', 'json', '-o', rep, '-q'],
+                   cwd=VERIF, env=env, capture_output=True)
+    if not os.path.exists(rep):
+        return None
+    files = json.load(open(rep)).get('files', {})
+    out = {}
+    for a in anchors:
+        for fn, d in files.items():
+            if fn.endswith(a):
+                sm = d['summary']
+                out[a] = {'covered_lines': sm['covered_lines'],
+                          'statements': sm['num_statements'],
+                          'percent': round(sm['percent_covered'], 1)}
+    return out
+
+
 def _failed(why, stderr, t0, job, out_file):
     """A worker that hung or died: keep what it had observed so far."""
     res = {'failed': why, 'stderr': stderr[-3000:],
@@ -157,6 +217,9 @@ def main(argv=None):
                     default=int(os.environ.get('VERIF_WORKERS') or 0))
     ap.add_argument('--no-evidence', action='store_true',
                     help='do not rewrite evidence/<id>.json (self-tests)')
+    ap.add_argument('--coverage', action='store_true',
+                    help='also measure anchor-file line coverage (default in '
+                         'the thorough tier)')
     ap.add_argument('--scale', type=float,
                     default=float(os.environ.get('VERIF_SCALE') or 1.0),
                     help='scale workload sizes (self-tests only)')
@@ -194,6 +257,12 @@ def main(argv=None):
             futs = [ex.submit(run_one, prop, repo, job, workdir, i, timeout)
                     for i, job in enumerate(jobs)]
             results = [f.result() for f in futs]
+        cov = None
+        if (args.tier == 'thorough' or args.coverage) and not args.replay:
+            try:
+                cov = anchor_coverage(prop, repo, jobs, workdir)
+            except Exception as e:       # informational only
+                cov = {'error': repr(e)}
     finally:
         shutil.rmtree(workdir, ignore_errors=True)
 
@@ -256,6 +325,8 @@ def main(argv=None):
         'exhaustive': bool(per_tier(getattr(mod, 'EXHAUSTIVE', False),
                                     args.tier, False)),
     }
+    if cov:
+        coverage['anchor_line_coverage'] = cov
     exh = per_tier(getattr(mod, 'EXHAUSTIVE_SUBSPACES', None), args.tier, None)
     if exh:
         coverage['exhaustive_subspaces'] = exh
